@@ -283,7 +283,9 @@ class Paraxial:
             # height of the reverse-traced ray at the object plane, not at
             # the first surface
             obj_dist = self.surfaces.positions[1] - self.surfaces.positions[0]
-            u1 = 0.1 * max_field / (y[-1] + u[-1] * obj_dist)
+            # negative so that, like for angular fields, the returned ray is
+            # the one of the positive maximum field (object height +max)
+            u1 = -0.1 * max_field / (y[-1] + u[-1] * obj_dist)
         elif self.optic.field_type == 'angle':
             u1 = 0.1 * np.tan(np.deg2rad(max_field)) / u[-1]
 
